@@ -95,13 +95,17 @@ impl BumpAllocator {
         loop {
             let current = self.current.load(Ordering::Acquire);
 
-            // Calculate aligned offset
-            let aligned_offset = (current + align - 1) & !(align - 1);
-            let new_offset = aligned_offset + size;
-
-            if new_offset > self.capacity {
-                return Err(ZiporaError::out_of_memory(size));
-            }
+            // Align the ADDRESS (the buffer itself is only 8-aligned), then convert back to an offset
+            let base = self.buffer.as_ptr() as usize;
+            let new_offset = base
+                .checked_add(current)
+                .and_then(|addr| addr.checked_add(align - 1))
+                .map(|addr| (addr & !(align - 1)) - base)
+                .and_then(|aligned_offset| aligned_offset.checked_add(size).map(|end| (aligned_offset, end)));
+            let (aligned_offset, new_offset) = match new_offset {
+                Some((a, end)) if end <= self.capacity => (a, end),
+                _ => return Err(ZiporaError::out_of_memory(size)),
+            };
 
             // Try to atomically update the current offset
             match self.current.compare_exchange_weak(
@@ -162,8 +166,9 @@ impl BumpAllocator {
     /// may allocate between this check and the actual allocation.
     pub fn can_allocate(&self, size: usize, align: usize) -> bool {
         let current = self.current.load(Ordering::Relaxed);
-        let aligned_offset = (current + align - 1) & !(align - 1);
-        aligned_offset + size <= self.capacity
+        let base = self.buffer.as_ptr() as usize;
+        let aligned_offset = ((base + current + align - 1) & !(align - 1)) - base;
+        aligned_offset.checked_add(size).map_or(false, |end| end <= self.capacity)
     }
 }
 
